@@ -66,6 +66,9 @@ func c14Hash(r *mon.R) {
 		}
 	}
 	r.Op("proof.Rep", "proof.And", "proof.Or", "Predicate.Prover", "Predicate.Verifier", "proof.HashProve", "proof.HashVerify")
+	if len(envs) > 1 {
+		c14CrossGroup(r, envs)
+	}
 	mon.Parallel(len(jobs), func(w, i int) {
 		j := jobs[i]
 		r.Journal(w, "C14 hash %s tree %d seed %d", j.env.name, j.idx, r.Seed)
@@ -815,6 +818,68 @@ func (h *c14H) forge(valid []byte) {
 			h.mustReject("forge", "simulate-all/transplanted-challenge", "transplant", t.root, pts, h.name, c14Forge(g, t.root, pts, c, true, rng), ex2)
 			// sanity of the forger itself: with the challenge of the valid proof and the valid proof's own commitments replaced, the
 			// simulated transcript for the TRUE statement must also be rejected (its commitments differ), nothing to learn; skipped.
+		}
+	}
+}
+
+// c14CrossGroup: predicates only name their variables, so ONE predicate object may be used with suites over different
+// groups, one after the other (documented: immutable, safe to reuse for any number of proofs). Every shape is proved and
+// verified over every group in two orders with the same object.
+func c14CrossGroup(r *mon.R, envs []*c14Env) {
+	type shape struct {
+		name   string
+		mk     func() (proof.Predicate, proof.Predicate) // predicate, the Or inside it (nil if none)
+		choice int
+	}
+	s2 := func() proof.Predicate { return proof.And(proof.Rep("X", "x", "B"), proof.Rep("Y", "x", "H")) }
+	shapes := []shape{
+		{"X=xB", func() (proof.Predicate, proof.Predicate) { return proof.Rep("X", "x", "B"), nil }, 0},
+		{"X=xB+yH", func() (proof.Predicate, proof.Predicate) { return proof.Rep("X2", "x", "B", "y", "H"), nil }, 0},
+		{"X=xB&&Y=xH", func() (proof.Predicate, proof.Predicate) { return s2(), nil }, 0},
+		{"(X=xB&&Y=xH)||Z=zB/0", func() (proof.Predicate, proof.Predicate) { o := proof.Or(s2(), proof.Rep("Z", "z", "B")); return o, o }, 0},
+		{"(X=xB&&Y=xH)||Z=zB/1", func() (proof.Predicate, proof.Predicate) { o := proof.Or(s2(), proof.Rep("Z", "z", "B")); return o, o }, 1},
+	}
+	for si, sh := range shapes {
+		for ord := 0; ord < 2; ord++ {
+			pred, or := sh.mk()
+			var names []string
+			for k := range envs {
+				e := envs[(k*(1+ord)+ord)%len(envs)]
+				if ord == 1 {
+					e = envs[len(envs)-1-k]
+				}
+				names = append(names, e.name)
+				rng := gen.New(r.Seed, "C14cross/"+e.name, si*2+ord)
+				suite := e.mk(rng.Stream())
+				var g kyber.Group = suite
+				x, y, z := g.Scalar().Pick(rng.Stream()), g.Scalar().Pick(rng.Stream()), g.Scalar().Pick(rng.Stream())
+				B, H := g.Point().Base(), g.Point().Pick(rng.Stream())
+				pts := map[string]kyber.Point{"B": B, "H": H, "X": g.Point().Mul(x, B), "Y": g.Point().Mul(x, H), "Z": g.Point().Mul(z, B),
+					"X2": g.Point().Add(g.Point().Mul(x, B), g.Point().Mul(y, H))}
+				sec := map[string]kyber.Scalar{"x": x, "y": y, "z": z}
+				if or != nil && sh.choice == 1 { // the first branch is false and its secret unknown
+					pts["X"], pts["Y"] = g.Point().Pick(rng.Stream()), g.Point().Pick(rng.Stream())
+					delete(sec, "x")
+				}
+				var ch map[proof.Predicate]int
+				if or != nil {
+					ch = map[proof.Predicate]int{or: sh.choice}
+				}
+				id := fmt.Sprintf("%s|%s|order%d|use%d", sh.name, e.name, ord, k)
+				det := map[string]any{"predicate": sh.name, "group": e.name, "groups_used_so_far_with_this_object": append([]string(nil), names...)}
+				r.Guard("C14/"+e.name+"/hash/complete/same-predicate-object-over-several-groups", det, func() {
+					prf, err := proof.HashProve(suite, "C14 cross", pred.Prover(suite, sec, pts, ch))
+					var verr error
+					if err == nil {
+						verr = proof.HashVerify(suite, "C14 cross", pred.Verifier(suite, pts), prf)
+					}
+					r.Eval("hash/complete/same-predicate-object-over-several-groups", id, true)
+					if err != nil || verr != nil {
+						det["prove_error"], det["verify_error"] = fmt.Sprint(err), fmt.Sprint(verr)
+						r.Violation("C14/"+e.name+"/hash/complete/same-predicate-object-over-several-groups/rejected", "a predicate object that was used over another group before does not prove/verify a true statement", det)
+					}
+				})
+			}
 		}
 	}
 }
